@@ -1092,6 +1092,29 @@ async def _b_unsub(ctx: Ctx, a: Actor, st: dict) -> Any:
 # ----------------------------------------------------------------------------------------
 
 
+def _plain(v: Any) -> Any:
+    import dataclasses
+    import enum
+
+    if isinstance(v, enum.Enum):
+        return {"enum": int(v.value)}
+    if isinstance(v, (bytes, bytearray)):
+        return {"bytes": bytes(v).hex()}
+    if isinstance(v, (list, tuple)):
+        return [_plain(x) for x in v]
+    if dataclasses.is_dataclass(v) and not isinstance(v, type):
+        return _plain_fields(v)
+    if isinstance(v, float) and v != v:
+        return {"nan": True}
+    return v
+
+
+def _plain_fields(obj: Any) -> dict:
+    import dataclasses
+
+    return {f.name: _plain(getattr(obj, f.name)) for f in dataclasses.fields(obj)}
+
+
 @step("sub")
 async def _s_sub(ctx: Ctx, a: Actor, st: dict) -> Any:
     w = ctx.world
@@ -1105,6 +1128,8 @@ async def _s_sub(ctx: Ctx, a: Actor, st: dict) -> Any:
             d = {"tag": tag, "cls": type(state).__name__, "key": state.key}
             if type(state).__name__ == "CameraState":
                 d["data"] = bytes(state.data)
+            else:
+                d["fields"] = _plain_fields(state)
             w.rec("cb_state", **d)
 
         cli.subscribe_states(on_state)
